@@ -385,7 +385,7 @@ var dirKeys = []string{
 
 func dirTokens() []string {
 	long := strings.TrimSuffix(strings.Repeat("A.", 150), ".")
-	return []string{"", ".", "A", "A.B", "N.A", "..", "A..B", "|", "| F", "| NoArg", ":", "pkg:", ":F", "vx/conv:F", "@x", "@error", "(", "[", ".*", long, "yes", "no", "\t", "é", "target", "source", "regex", "F", "NoArg", "X"}
+	return []string{"", ".", "A", "A.B", "N.A", "Z", "Z.A", "P.Z", "..", "A..B", "|", "| F", "| NoArg", ":", "pkg:", ":F", "vx/conv:F", "@x", "@error", "(", "[", ".*", long, "yes", "no", "\t", "é", "target", "source", "regex", "F", "NoArg", "X"}
 }
 
 // dirValues: all value strings of ≤ k tokens joined by one space.
@@ -418,8 +418,11 @@ type DIn struct {
 	B string
 	N DNested
 	P *DNested
+	Z *DZip
+	Q *int
 }
-type DNested struct{ A int; B string }
+type DNested struct{ A int; B string; Z *DZip }
+type DZip string
 type DOut struct {
 	A int
 	B string
